@@ -285,6 +285,25 @@ Definition punct_index (p : punct) : nat :=
 Definition stamp_index (k : stamp_arm) : nat :=
   match find_index (fun x => sarm_eqb (snd x) k) stamp_arms 0 with Some i => i | None => 0 end.
 
+(* the numbers of a value are what C01 calls well-formed: every truth / budget number in [0,1]
+   (in01 is false of NaN, negatives, infinities), a fixed stamp within isize *)
+Definition stamp_ok (x : stamp) : bool :=
+  match x with Fixed z => ((isize_min <=? z) && (z <=? isize_max))%Z | _ => true end.
+Definition nv_term {F} (v : narsese F) : term :=
+  match v with NTerm t => t | NSentence s => s_term s | NTask k => s_term (fst k) end.
+Section ValsOk.
+  Variable F : Type.
+  Variable in01 : F -> bool.
+  Definition sent_vals_ok (s : sentence F) : bool :=
+    stamp_ok (s_stamp s) && match s_truth s with Some t => forallb in01 (truth_list t) | None => true end.
+  Definition vals_ok (v : narsese F) : bool :=
+    match v with
+    | NTerm _ => true
+    | NSentence s => sent_vals_ok s
+    | NTask (s, b) => sent_vals_ok s && forallb in01 (budget_list b)
+    end.
+End ValsOk.
+
 Section Canon.
   Variable F : Type.
   Variable fshow : F -> str.          (* f64::to_string *)
